@@ -542,8 +542,15 @@ class FileIndex(Index):
             # deleted documents from a segment: the open reader holds the
             # segment object (and deletion set) of ITS generation, so it
             # can only be re-used when the deletions are still the same
+            # ... and when it was opened with the same schema: a reader keeps
+            # the Schema object of its time, so after add_field() or
+            # remove_field() it would not know the new field (or still return
+            # the removed one). Readers without a generation (the in-memory
+            # segment of a BufferedWriter) cannot be re-opened.
             if (segment in reusable
-                and _same_deletions(reusable[segment].segment(), segment)):
+                and _same_deletions(reusable[segment].segment(), segment)
+                and (reusable[segment].generation() is None
+                     or reusable[segment].schema == schema)):
                 r = reusable[segment]
                 del reusable[segment]
                 if r.generation() is not None:
